@@ -87,6 +87,8 @@ def array_len_of_arg(body, operand):
                 n = ty_len(body.local_ty(l))
                 if n is not None:
                     return n
+                if c.name in ("as_ref", "as_bytes", "borrow") and "uuid::Uuid" in ((c.self_ty or "") + (c.full or "")):
+                    return 16  # a Uuid is 16 bytes (uuid::Bytes = [u8; 16])
                 if mir.is_transparent(c) and c.args:
                     v = walk(c.args[0], d - 1)
                     if v is not None:
